@@ -214,11 +214,14 @@ pub fn run(ctx: &Ctx) -> i32 {
     // (or only) continuation byte is the extreme 0x80 / 0xBF
     // ... and two alphabets of "byte siblings": scalars whose encodings differ ONLY in the lead byte (C2/C3/C4/D1 A9; E1/E2/E3 81 A9;
     // EB/EC/ED 81 A9; F0/F1/F2 90 81 A9), adjacent lead bytes included - what the UTF-8 automaton shares between characters
-    let more: [[char; 8]; 4] = [
+    let more: [[char; 8]; 6] = [
         ['\u{7f}', '\u{80}', 'ÿ', '\u{7ff}', '\u{800}', '☿', '\u{ffff}', '😿'],
         ['a', '\u{81}', '\u{bf}', 'é', '\u{10000}', '\u{10ffff}', '\u{e000}', '\u{d7ff}'],
         ['©', 'é', 'ĩ', '\u{469}', '\u{1069}', '\u{2069}', '\u{3069}', 'a'],
         ['\u{b069}', '\u{c069}', '\u{d069}', '\u{10069}', '\u{50069}', '\u{90069}', '\u{e8}', '\u{2068}'],
+        // scalars that share their lead byte(s) and differ in ONE continuation byte, the extremes 0x80 and 0xBF included
+        ['\u{c0}', 'é', 'ÿ', '\u{2600}', '☃', '\u{263f}', '\u{1f600}', '\u{1f63f}'],
+        ['\u{2fc0}', '\u{2003}', '\u{1ffc0}', '\u{3f000}', '\u{10000}', '\u{1f000}', '\u{203f}', '\u{1f03f}'],
     ];
     let more_sets: Vec<(Vec<String>, Set<Vec<u8>>)> = more
         .iter()
